@@ -459,9 +459,13 @@ def run_campaign(camp, model, rng, ncases, kinds, maxlen, pid, force_caps_choice
             exp = spec.expected(op)
             if exp is None:
                 camp.count("outside-domain")
-                # an out-of-range pointer operation leaves the client's attributes outside the
-                # property's domain (e.g. button 9 sets mask bit 8): the rest of this history is
-                # compared with the model only
+                # a move / press / click that raises (a coordinate or button that does not fit the message) is not
+                # remembered: the history goes on as if it had not been made.  Other out-of-range pointer operations
+                # (a drag that fails half way, a release of button 9) leave the property's domain: the rest of the
+                # history is compared with the model only
+                if op[0] in ("mouseMove", "mouseDown", "mousePress") and got is None:
+                    camp.count("raised-and-forgotten")
+                    continue
                 if op[0].startswith("mouse"):
                     break
                 continue
@@ -499,6 +503,8 @@ def replay_case(case, pid):
     for oi, (op, got) in enumerate(zip(ops, real)):
         exp = spec.expected(op)
         if exp is None:
+            if op[0] in ("mouseMove", "mouseDown", "mousePress") and got is None:
+                continue
             if op[0].startswith("mouse"):
                 break
             continue
